@@ -479,6 +479,36 @@ def run_fonts(report, rng):
             case["problems"] = [str(p_)[:800] for p_ in probs[:3]]
             report_failure(report, "font", case)
             return
+    # gradients whose residual (non-uniform) transform must survive sharing: the second use of one outline at one place,
+    # two definitions that differ in that transform only, one definition on several shapes - as COLRv1 and as OT-SVG
+    from harness.c02 import check_otsvg_glyphs
+    from harness.c06 import CORPUS_SETS
+
+    for name, fmts, tol, texts in CORPUS_SETS:
+        if name not in ("second-use-squashed-radial", "radials-differing-in-transform-only", "one-gradient-many-shapes", "gradient-on-reused-shape", "same-shape-same-place-gradient"):
+            continue
+        srcs = [(build.filename_for((0x1F600 + k,)), t, (0x1F600 + k,)) for k, t in enumerate(texts)]
+        for fmt in ("glyf_colr_1", "picosvg"):
+            over = dict(color_format=fmt, upem=1024, ascender=896, descender=-128, width=1024, reuse_tolerance=tol)
+            case = dict(kind="e2e", corpus=name, config={k: str(v) for k, v in over.items()}, sources=[s_[1] for s_ in srcs])
+            try:
+                font, cfg, picos, _ = build.build_inprocess(over, srcs)
+            except Exception as ex:
+                case["error"] = f"{type(ex).__name__}: {ex}"[:1200]
+                report_failure(report, "font_build", case)
+                return
+            probs = []
+            if fmt == "picosvg":
+                n, entries = check_otsvg_glyphs(font, cfg, srcs, picos, False)
+                probs = [f"{e_['source']}: {x}" for e_ in entries if not e_.get("rounding_only") for x in e_["problems"]]
+            else:
+                n = e2e.check_colr_glyphs(font, cfg, srcs, picos, probs)
+            report.count(("font", name, fmt), True, n)
+            report.hist("fonts.corpus", f"{name} {fmt}")
+            if probs:
+                case["problems"] = [str(p_)[:800] for p_ in probs[:3]]
+                report_failure(report, "font", case)
+                return
 
 
 def main(argv):
